@@ -1,5 +1,5 @@
 (** C08 - Cancel is final: canceled tasks never run or report again. *)
-From HQ Require Import Base.Prelude Cluster.Types Cluster.Core Cluster.Reactor Cluster.Worker Cluster.Server Cluster.Sys Cluster.Monitors Cluster.ProofsJob Cluster.ProofsCore Cluster.ProofsMore Cluster.ProofsTerminal Cluster.ProofsStep Cluster.ProofsAll Cluster.RejHyp Cluster.BijFinal Cluster.ReleaseCancel Cluster.ReleaseFree.
+From HQ Require Import Base.Prelude Cluster.Types Cluster.Core Cluster.Reactor Cluster.Worker Cluster.Server Cluster.Sys Cluster.Monitors Cluster.ProofsJob Cluster.ProofsCore Cluster.ProofsMore Cluster.ProofsTerminal Cluster.ProofsStep Cluster.ProofsAll Cluster.RejHyp Cluster.BijFinal Cluster.ReleaseCancel Cluster.ReleaseFree Cluster.SilentCancel.
 From Coq Require Import ZArith.
 Local Open Scope N_scope.
 
@@ -76,6 +76,12 @@ Proof. exact cancel_frees_mn_worker. Qed.
 Definition C08_cancel_releases_example := cancel_releases_example.
 Definition C08_cancel_frees_mn_example := cancel_frees_mn_example.
 
+(** Cancel is final, as the executable trace monitor: once a cancel request was answered, nothing is
+    reported for the cancelled tasks any more - accepted for EVERY history (no hypothesis). *)
+Theorem C08_cancel_final : forall ops reserve maxfill s items,
+  run_citems (init_sys reserve maxfill) ops = Ok (s, items) -> cancel_final [] items = true.
+Proof. exact cancel_final_run. Qed.
+
 Print Assumptions C08_cancel_leaves_none.
 Print Assumptions C08_terminal_tasks_keep_outcome.
 Print Assumptions C08_cancel_idempotent.
@@ -86,3 +92,4 @@ Print Assumptions C08_cancel_free_counters.
 Print Assumptions C08_cancel_frees_mn_worker.
 Print Assumptions C08_cancel_releases_example.
 Print Assumptions C08_cancel_frees_mn_example.
+Print Assumptions C08_cancel_final.
